@@ -4,6 +4,7 @@ import (
 	"context"
 	"errors"
 	"testing"
+	"testing/synctest"
 	"time"
 
 	hsync "github.com/celestiaorg/go-header/sync"
@@ -105,6 +106,75 @@ func TestSyncWaitFailure(t *testing.T) {
 			case <-time.After(10 * time.Second):
 			}
 		}()
+		tw.Put(rec)
+		rw.Put(mbt.Result{ID: rec.Tr, Key: mbt.J(rec.Tr), NonTriv: true, Verdict: "ok"})
+	}
+}
+
+// TimeoutRec: a Head() call whose head request runs into its timeout, followed by a Head() call with healthy peers.
+type TimeoutRec struct {
+	Tr     int    `json:"tr"`
+	Op     string `json:"op"`
+	First  int    `json:"first"`  // height returned by the call whose request timed out (the old subjective head)
+	Second int    `json:"second"` // height returned by the next call
+	Want   int    `json:"want"`   // the head the healthy peers report
+	Calls2 int    `json:"calls2"` // head requests made by the second call
+	Note   string `json:"note,omitempty"`
+}
+
+// TestHeadTimeoutRecovers (virtual time): the trusted peers do not answer the head request of a stale Head() call until
+// its own timeout (NetworkHeadRequestTimeout); the call falls back on the subjective head.  Errors only delay: the next
+// Head() call, with healthy peers, learns the network head (C07: learned by Head(); C19: exactly one request).
+func TestHeadTimeoutRecovers(t *testing.T) {
+	_, rw, tw := openIO(t)
+	defer rw.Close()
+	defer tw.Close()
+	for run := 0; run < 3; run++ {
+		rec := TimeoutRec{Tr: 710000 + run, Op: "headTimeout", Want: 3 + run}
+		synctest.Test(t, func(t *testing.T) {
+			bg := context.Background()
+			base := time.Now().Add(-30 * time.Second)
+			times := make([]int64, 16)
+			for i := range times {
+				times[i] = base.Add(time.Duration(i) * time.Second).UnixNano()
+			}
+			chain := vh.NewChainTimes("c", 1, times)
+			n := newNode(t, chain, 1, 1, hsync.WithBlockTime(time.Second), hsync.WithRecencyThreshold(time.Minute),
+				hsync.WithTrustingPeriod(100*time.Hour), hsync.WithPruningWindow(1000*time.Hour))
+			if err := n.sy.Start(bg); err != nil {
+				rec.Note = "start: " + err.Error()
+				return
+			}
+			synctest.Wait()
+			time.Sleep(2 * time.Minute) // the subjective head is stale
+			hang := true
+			n.get.pre = func(ctx context.Context, kind string) {
+				if kind == "Head" && hang {
+					<-ctx.Done() // silent peers: the request ends with its own deadline
+				}
+			}
+			n.get.headFn = func(gcall, *vh.Header) (*vh.Header, error) { return chain.At(uint64(rec.Want)), nil }
+			head := func() int {
+				ctx, cancel := context.WithTimeout(bg, time.Hour)
+				defer cancel()
+				h, err := n.sy.Head(ctx)
+				if err != nil || h == nil {
+					return 0
+				}
+				return int(h.Height())
+			}
+			rec.First = head()
+			synctest.Wait()
+			hang = false
+			time.Sleep(2 * time.Minute)
+			before := len(n.get.callsOf("Head"))
+			rec.Second = head()
+			rec.Calls2 = len(n.get.callsOf("Head")) - before
+			synctest.Wait()
+			n.get.pre = nil
+			n.stop()
+			synctest.Wait()
+		})
 		tw.Put(rec)
 		rw.Put(mbt.Result{ID: rec.Tr, Key: mbt.J(rec.Tr), NonTriv: true, Verdict: "ok"})
 	}
